@@ -71,6 +71,40 @@ def gen_bigint(rng):
             "lr": False, "rr": False, "bigint": True, "lf": lf, "rf": rf}
 
 
+def gen_longtrunc(rng, nb=36):
+    """a long series (a few hundred thousand samples) cut at right bounds that fall BETWEEN two samples, at positions
+    where a block-wise search would change blocks (n / B for B = 2 .. 64, rounded either way) and at random positions"""
+    n = rng.choice([2 ** 18 + 1, 2 ** 18 + 977, 300000, 2 ** 19 + 3])
+    pos = set()
+    for B in (2, 4, 8, 16, 32, 64):
+        for blk in {n // B, n // B + 1, -(-n // B)}:
+            for j in range(1, B):
+                if 1 <= j * blk < n - 1:
+                    pos.add(j * blk)
+    pos = rng.sample(sorted(pos), min(nb - 6, len(pos))) + [rng.randint(2, n - 3) for _ in range(6)]
+    return {"kind": "longtrunc", "n": n, "steps": [str(rng.dyadic(1, 9, 2)) for _ in range(7)], "gaps": sorted(pos),
+            "x": ["0", "1"], "y": ["0", "1"], "layout": "contig,contig,contig", "hist": "none"}
+
+
+def run_longtrunc(c):
+    from traffic_weaver.process import truncate
+    n = c["n"]
+    steps = np.array([float(Fraction(v)) for v in c["steps"]])
+    x = np.concatenate([[2.5], 2.5 + np.cumsum(np.resize(steps, n - 1))])
+    y = np.arange(n, dtype=float) % 11
+    out = []
+    for g in c["gaps"]:
+        # right bound strictly between samples g-1 and g: the smallest covering run ends AT sample g
+        r = (x[g - 1] + x[g]) / 2
+        try:
+            rx, ry = truncate(x, y, float(x[3]), float(r))
+            ok = (len(rx) == g - 3 + 1 and len(ry) == len(rx) and rx[0] == x[3] and rx[-1] == x[g] and ry[-1] == y[g])
+            out.append([int(g), bool(ok), int(len(rx)), float(rx[-1]) if len(rx) else None, float(x[g])])
+        except Exception as e:  # noqa
+            out.append([int(g), False, -1, err_kind(e), float(x[g])])
+    return {"long": out}
+
+
 def gen_session(rng):
     c = W.gen_init(rng, 4, 10)
     c["kind"] = "session"
@@ -131,6 +165,11 @@ def gen_session(rng):
 
 def cases(rng, tier):
     na, nb = {"quick": (500, 300), "thorough": (6000, 4000)}.get(tier, (300, 150))
+    if tier == "thorough":
+        for _ in range(4):
+            yield gen_longtrunc(rng, 150)
+    else:
+        yield gen_longtrunc(rng)
     for _ in range(max(20, na // 10)):
         yield gen_bigint(rng)
     for _ in range(na):
@@ -144,6 +183,8 @@ def V(c):
 
 
 def run_impl(c):
+    if c["kind"] == "longtrunc":
+        return run_longtrunc(c)
     if c["kind"] == "truncate":
         from traffic_weaver.process import truncate
         x, y = V(c)
@@ -171,6 +212,8 @@ def run_impl(c):
 
 
 def request(c):
+    if c["kind"] == "longtrunc":
+        return []
     if c["kind"] == "truncate":
         x, y = V(c)
         return (f"truncate {fmt(Fraction(c['l']))} {fmt(Fraction(c['r']))} {1 if c['lr'] else 0} {1 if c['rr'] else 0} "
@@ -179,6 +222,8 @@ def request(c):
 
 
 def compare(c, io, mo):
+    if c["kind"] == "longtrunc":
+        return None
     if c["kind"] == "truncate":
         m = mo[0]
         if "err" in io:
@@ -203,6 +248,14 @@ def expected_cut(xf, l, r):
 
 
 def oracle(c, io):
+    if c["kind"] == "longtrunc":
+        bad = [r for r in io["long"] if not r[1]]
+        if bad:
+            g, _, ln, last, want = bad[0]
+            return (f"truncate of a series of {c['n']} samples to a right bound between samples {g - 1} and {g}: the result has "
+                    f"{ln} samples and ends at {last!r}; the smallest covering run ends at x[{g}] = {want!r} "
+                    f"({len(bad)} of {len(io['long'])} bounds wrong)")
+        return None
     if c["kind"] == "truncate" and c.get("bigint"):
         x, y = V(c)
         l, r = Fraction(c["l"]), Fraction(c["r"])
@@ -324,6 +377,8 @@ def judge_query(q, st, xf, yf):
 
 
 def tags(c, io, mo):
+    if c["kind"] == "longtrunc":
+        return ["kind=longtrunc"]
     if c["kind"] == "truncate":
         return ["kind=truncate", "ratio" if c["lr"] or c["rr"] else "absolute"] + ([f"error={io['err']}"] if "err" in io else [])
     t = ["kind=session"]
@@ -338,6 +393,8 @@ def tags(c, io, mo):
 
 
 def nontrivial_key(c, io, mo):
+    if c["kind"] == "longtrunc":
+        return c
     if c["kind"] == "truncate":
         return c if "ok" in io and len(io["ok"][0]) < len(c["x"]) else None
     return {"x": c["x"], "ops": [{k: v for k, v in o.items() if not k.startswith("_")} for o in c["ops"]],
